@@ -3,7 +3,7 @@
    interpreter; generated decoders are covered at the generated-code level).
    [forall l : list byte] ranges over ALL byte strings: every truncation, bit flip and corrupted
    length/size/type/id is an instance. *)
-From PV Require Import Thrift.Interp Proofs.HeaderP Proofs.RoundtripP Proofs.TotalP.
+From PV Require Import Thrift.Interp Proofs.HeaderP Proofs.RoundtripP Proofs.TotalP Proofs.PrefixP.
 Open Scope Z_scope.
 
 (* no panic, no hang: with fuel [length l + 1] the reader returns Ok or a genuine error, for every
@@ -30,3 +30,21 @@ Theorem C09_bytes_len_bounded : forall p s l s',
   r_bytes p s = Ok (l, s') -> (length l <= blen s)%nat.
 Proof. exact r_bytes_bounded. Qed.
 Print Assumptions C09_bytes_len_bounded.
+
+(* every strict prefix of a valid encoding (of a struct or of any other value) is rejected with a
+   genuine error -- not accepted, not a panic, not fuel exhaustion *)
+Theorem C09_prefix_rejected : forall p k v c,
+  wt v = true -> w_pend c = None ->
+  exists ss, write_val p k v c = Ok (ss, c) /\
+    forall n fuel rcx, (n < length (flat ss))%nat -> (vsize v <= fuel)%nat -> (n < fuel)%nat -> idle rcx ->
+      exists e, read_val p fuel (ttype_of v) (mkS (firstn n (flat ss)) rcx) = Err e /\ e <> EOutOfFuel.
+Proof. exact prefix_rejected. Qed.
+Print Assumptions C09_prefix_rejected.
+
+(* the lemma behind it, of independent interest: the readers are monotone in their input -- a read
+   that succeeds on a buffer succeeds with the same value on every extension of it and leaves the
+   extension unread (so a decoder never depends on what follows the message) *)
+Theorem C09_reader_monotone : forall p f ty s v s' t,
+  read_val p f ty s = Ok (v, s') -> read_val p f ty (ext s t) = Ok (v, ext s' t).
+Proof. exact (fun p f ty => EXT_read_val p f ty). Qed.
+Print Assumptions C09_reader_monotone.
